@@ -1,6 +1,8 @@
 //! Correspondence harness: runs histories on the real flatcontainer crate.
 //! usage: fcharness regions IN OUT     (one history per line: `ENTRYNAME;op;op;...`)
+mod fs;
 mod gen;
+mod ic;
 mod run;
 mod wire;
 
@@ -43,6 +45,57 @@ fn main() {
                                     }
                                     o.show(&mut s);
                                 }
+                            }
+                        }
+                    },
+                }
+                writeln!(out, "{s}").unwrap();
+            }
+        }
+        "ic" => {
+            for line in input.lines() {
+                let line = line.unwrap();
+                let mut parts = line.split(';');
+                let kind = parts.next().unwrap_or("");
+                let ops: Result<Vec<ic::IcOp>, String> = parts.map(ic::parse_ic_op).collect();
+                let mut s = String::new();
+                match ops {
+                    Err(e) => s.push_str(&format!("bad-history {e}")),
+                    Ok(ops) => match ic::run_ic(kind, &ops) {
+                        None => s.push_str("unknown-entry"),
+                        Some(obs) => {
+                            for (i, o) in obs.iter().enumerate() {
+                                if i > 0 {
+                                    s.push(';');
+                                }
+                                match o {
+                                    Some(u) => u.show(&mut s),
+                                    None => s.push('P'),
+                                }
+                            }
+                        }
+                    },
+                }
+                writeln!(out, "{s}").unwrap();
+            }
+        }
+        "fs" => {
+            for line in input.lines() {
+                let line = line.unwrap();
+                let mut parts = line.split(';');
+                let name = parts.next().unwrap_or("");
+                let ops: Result<Vec<fs::FsOp>, String> = parts.map(fs::parse_fs_op).collect();
+                let mut s = String::new();
+                match ops {
+                    Err(e) => s.push_str(&format!("bad-history {e}")),
+                    Ok(ops) => match gen::dispatch_fs(name, &ops) {
+                        None => s.push_str("unknown-entry"),
+                        Some(obs) => {
+                            for (i, o) in obs.iter().enumerate() {
+                                if i > 0 {
+                                    s.push(';');
+                                }
+                                o.show(&mut s);
                             }
                         }
                     },
